@@ -14,7 +14,8 @@ Definition up := cupd (O:=ROps) gnR.
 Ltac norm H := cbv -[ROps R R0 R1 Rplus Rminus Rmult Rdiv Ropp IZR Rinv] in H.
 Definition draw0 (g : unit) (_ : unit) : option (R * unit) := Some (0, g).
 
-(** D15: MonteCarlo.run leaves the lens at the last trial (no final reset).
+(** D15 (repaired in /repo 20368e1; [mc_run] is the model of the ORIGINAL code, the repaired code is [mc_run_fixed]):
+    MonteCarlo.run leaves the lens at the last trial (no final reset).
     Witness: singlet, radius of surface 1 perturbed by ScalarSampler(65), one trial. *)
 Definition lA : clens (O:=ROps) := mkL (O:=ROps) [S GPlane 0 (-100) air; S GStd 60 0 (MIdeal (O:=ROps) 1.5 0); S GStd (-60) 5 air; S GPlane 0 95 air] [].
 Definition hA : handle (O:=ROps) := mkH (O:=ROps) HRadius 1 0 0 false.
@@ -33,14 +34,14 @@ Qed.
     Witness: treset on the NOMINAL lens already changes it (first statement of every trial). *)
 Definition lB : clens (O:=ROps) := mkL (O:=ROps) [S GPlane 0 (-100) air; S GPlane 0 0 (MIdeal (O:=ROps) 1.5 0); S GStd (-60) 5 air; S GPlane 0 95 air] [].
 Theorem reset_plane_radius_refuted :
-  treset vs (map (mkvar vg lB) [hA]) [] lB <> lB.
+  treset vs up (map (mkvar vg lB) [hA]) [] lB <> lB.
 Proof. intro Heq. norm Heq. discriminate Heq. Qed.
 
 (** D23: an index perturbation on a catalogue glass is reset to a dispersion-free IdealMaterial. *)
 Definition lC : clens (O:=ROps) := mkL (O:=ROps) [S GPlane 0 (-100) air; S GStd 60 0 (MGlass (O:=ROps) 0); S GStd (-60) 5 air; S GPlane 0 95 air] [].
 Definition hC : handle (O:=ROps) := mkH (O:=ROps) HIndex 1 0 (55 / 100) false.
 Theorem reset_index_material_refuted :
-  let l' := treset vs (map (mkvar vg lC) [hC]) [] lC in
+  let l' := treset vs up (map (mkvar vg lC) [hC]) [] lC in
   l' <> lC /\ vg l' (mkH (O:=ROps) HIndex 1 0 (45 / 100) false) <> vg lC (mkH (O:=ROps) HIndex 1 0 (45 / 100) false).
 Proof.
   split.
@@ -48,18 +49,18 @@ Proof.
   - intro Heq. norm Heq. rops. lra.
 Qed.
 
-(** reset-skips-update: with a pickup and a compensator, Optic.update() (called by the optimiser) moves the pickup
-    target; reset() restores the source but never re-applies the pickups.
-    Witness: radius(2) := -1 * radius(1); perturb radius(1) to 65; the compensator (conic of surface 2) is evaluated once. *)
+(** reset-skips-update was repaired in /repo (40156c7: Tolerancing.reset ends with Optic.update()); the model's
+    [treset] follows.  The former witness (radius(2) := -1 * radius(1); radius(1) perturbed to 65; one evaluation of the
+    compensator) now ends at the nominal lens: *)
 Definition lD : clens (O:=ROps) := mkL (O:=ROps) (surfs lA) [mkP (O:=ROps) 1 PRadius 2 (-1) 0].
 Definition hD : handle (O:=ROps) := mkH (O:=ROps) HConic 2 0 0 true.
-Theorem sensitivity_ends_nominal_pickup_refuted :
+Example sensitivity_ends_nominal_pickup_witness_now_nominal :
   match sens_run (O:=ROps) vg vs up (fun _ => []) draw0
                  (map (mkvar vg lD) [hA]) (map (mkvar vg lD) [hD]) [[[0]]]
                  (mkSt lD [SRange (O:=ROps) unit [65] 0] tt) with
-  | Some (s', rows) => length rows = 1%nat /\ lens s' <> lD
+  | Some (s', rows) => length rows = 1%nat /\ lens s' = lD
   | None => False end.
 Proof.
   cbv -[ROps R R0 R1 Rplus Rminus Rmult Rdiv Ropp IZR Rinv not]. split; [reflexivity|].
-  intro Heq. inversion Heq. rops. lra.
+  rops. repeat (f_equal; try lra).
 Qed.
